@@ -13,6 +13,7 @@ import (
 	"encoding/hex"
 	"fmt"
 	"sort"
+	"strings"
 
 	"github.com/MixinNetwork/mixin/common"
 	"github.com/MixinNetwork/mixin/config"
@@ -30,13 +31,14 @@ type Snap struct {
 }
 
 type Case struct {
-	Kind   string  `json:"kind"`
-	Node   string  `json:"node"`
-	Number uint64  `json:"number"`
-	Snaps  []Snap  `json:"snaps"`
-	Perms  [][]int `json:"perms"` // orders the set is supplied in
-	Model  bool    `json:"model"`
-	Stages []Stage `json:"stages,omitempty"` // kind "live": successive contents of ONE CacheRound object
+	Kind   string       `json:"kind"`
+	Node   string       `json:"node"`
+	Number uint64       `json:"number"`
+	Snaps  []Snap       `json:"snaps"`
+	Perms  [][]int      `json:"perms"` // orders the set is supplied in
+	Model  bool         `json:"model"`
+	Stages []Stage      `json:"stages,omitempty"` // kind "live": successive contents of ONE CacheRound object
+	Rounds []StoreRound `json:"rounds,omitempty"` // kinds "store-*": rounds 0.. of Node written into real stores, then loaded (store.go)
 }
 
 // Stage installs Set as the content of the long-lived round object, by How:
@@ -279,6 +281,10 @@ func run(c *vh.Ctx, cs Case) {
 		runLive(c, cs)
 		return
 	}
+	if strings.HasPrefix(cs.Kind, "store-") {
+		runStore(c, cs)
+		return
+	}
 	node := h32(cs.Node)
 	ref, tbl := reference(node, cs.Number, cs.Snaps)
 	var first, firstS result
@@ -449,6 +455,7 @@ func main() {
 		var cs Case
 		c.ReplayCase(&cs)
 		run(c, cs)
+		closeStores()
 		c.Finish()
 		return
 	}
@@ -469,5 +476,6 @@ func main() {
 	for i := c.Scale(60, 3000); i > 0; i-- {
 		run(c, genLive(c))
 	}
+	runStoreCases(c) // last: the random stream of the kinds above is unchanged
 	c.Finish()
 }
